@@ -73,20 +73,40 @@ def redefine(p, pd):
         setattr(p, k, v)
 
 
-def perturbed(pd):
-    """another legitimate definition of the same model kind (different geometry, laminate order, flags, pre-load)"""
+SWEEP_KINDS = ["all", "offset", "geometry", "flags", "stack", "plyts", "material", "radius", "orders", "interval", "preload", "mu"]
+
+
+def perturbed(pd, kind="all"):
+    """another legitimate definition of the same model kind differing in ONE aspect (or in all of them): a
+    parameter study on one object changes exactly that aspect back afterwards"""
     import copy
     q = copy.deepcopy(pd)
-    q["a"] = rat(fr(pd["a"]) * 2)
-    q["b"] = rat(fr(pd["b"]) * Fraction(3, 2))
-    q["y1"], q["y2"] = rat(0), q["b"]
-    q["stack"] = list(reversed(q["stack"]))
-    q["off"] = rat(fr(pd["off"]) + Fraction(1, 16))
-    q["mu"] = rat(fr(pd["mu"]) * 3)
-    q["fl"] = [[list(reversed(ax)) for ax in row] for row in reversed(pd["fl"])]
-    q["Ncte"] = [rat(2), rat(-1), rat(1)]
-    if pd["model"] in ("cpanel", "kpanel"):
+    every = kind in ("all", True)
+    if every or kind == "geometry":
+        q["a"] = rat(fr(pd["a"]) * 2)
+        q["b"] = rat(fr(pd["b"]) * Fraction(3, 2))
+        q["y1"], q["y2"] = rat(fr(pd["y1"]) * Fraction(3, 2)), rat(fr(pd["y2"]) * Fraction(3, 2))
+    if every or kind == "stack":
+        q["stack"] = [dict(p, dir=[p["dir"][0] + 1, p["dir"][1] + 2]) for p in reversed(q["stack"])]
+    if every or kind == "plyts":
+        q["stack"] = [dict(p, t=rat(fr(p["t"]) * 2)) for p in q["stack"]]
+    if every or kind == "material":
+        q["stack"] = [dict(p, mat=[rat(fr(v) * (3 if k in (0, 3) else 1)) for k, v in enumerate(p["mat"])]) for p in q["stack"]]
+    if every or kind == "offset":
+        q["off"] = rat(fr(pd["off"]) + Fraction(1, 16))
+    if every or kind == "mu":
+        q["mu"] = rat(fr(pd["mu"]) * 3)
+    if every or kind == "flags":
+        q["fl"] = [[[rat(fr(v) + 1) for v in ax] for ax in row] for row in pd["fl"]]
+    if every or kind == "preload":
+        q["Ncte"] = [rat(2), rat(-1), rat(1)]
+    if (every or kind == "radius") and pd["model"] in ("cpanel", "kpanel"):
         q["r"] = rat(fr(pd["r"]) + 3)
+    if kind == "orders":
+        q["m"], q["n"] = pd["m"] + 1, max(1, pd["n"] - 1)
+    if kind == "interval":
+        b = fr(q["b"])
+        q["y1"], q["y2"] = (rat(b / 8), rat(b * Fraction(5, 8))) if fr(pd["y1"]) == 0 else (rat(0), rat(b))
     return q
 
 
@@ -202,7 +222,7 @@ def observe(pd, req, fresh_model=True):
     """run the request on a freshly defined real Panel; returns (dense matrix as dyadics, flags_ok)"""
     if req.get("sweep") and req["q"] in ("k0", "kG0", "kM"):
         # parameter study on ONE object: evaluate another definition first, then re-define and ask again
-        p = build_panel(perturbed(pd), explicit_model=True)
+        p = build_panel(perturbed(pd, req["sweep"]), explicit_model=True)
         if req["q"] == "kG0":
             p.Nxx, p.Nyy, p.Nxy = 1.5, -0.5, 0.25
         p.calc_k0(silent=True)
@@ -500,8 +520,8 @@ def random_req(rng, pd, q):
         r["ctor"] = True
     if q in ("k0", "kG0", "kM") and rng.random() < 0.25:
         r["nofin"] = True
-    if q in ("k0", "kG0", "kM") and rng.random() < 0.3:
-        r["sweep"] = True
+    if q in ("k0", "kG0", "kM") and rng.random() < 0.4:
+        r["sweep"] = rng.choice(SWEEP_KINDS)
     if q in ("k0", "kG0", "kM") and rng.random() < 0.3:
         off = rng.randint(1, 9)
         r.update(size=size + off + rng.randint(0, 7), row0=off, col0=off)
@@ -664,8 +684,8 @@ def run_prop(prop, qs, tier, seed, build, nrand_quick=40, nrand_thorough=600, wh
                 r["ctor"] = True
             if k % 4 == 2 and r["q"] in ("k0", "kG0", "kM"):
                 r["nofin"] = True
-            if k % 5 == 3 and r["q"] in ("k0", "kG0", "kM"):
-                r["sweep"] = True
+            if k % 2 == 1 and r["q"] in ("k0", "kG0", "kM"):
+                r["sweep"] = SWEEP_KINDS[(k // 2) % len(SWEEP_KINDS)]
         try:
             obs, ok = observe(pd, r, fresh_model=(k % 3 != 0))
         except Exception as ex:
